@@ -16,8 +16,6 @@ FA = 'edp_client::fragmentation::FragmentAssembler'
 REVIEWED = {
     'edp_client::fragmentation::FragmentAssembler::cleanup_expired:Sub(len(self.pending),len(self.pending))':
         '`before - self.pending.len()` around a HashMap::retain: retain only removes entries, so the second length never exceeds the first',
-    'edp_client::fragmentation::FragmentedMessage::reassemble:Add(unwrap_or(call,0),sum(call))':
-        'sum of the lengths of byte buffers that are all held in memory at the same time: bounded by the address space',
 }
 
 
@@ -137,7 +135,7 @@ def run(ctx):
 
     # ---------------- clause 2/3: completion consumes the entry; keys are the call's own sequence id ----------
     ctx.rule('C09.2-completion-consumes', 'a completed message handed to reassemble was removed from `pending` (or never inserted); reassemble takes the message by value', floor=2)
-    ctx.rule('C09.3-own-key', 'every access to `pending` in start_fragment/add_fragment is keyed by the call\'s own sequence id', floor=5)
+    ctx.rule('C09.3-own-key', 'every access to `pending` in start_fragment/add_fragment is keyed by the call\'s own sequence id', floor=2)
     sig = ctx.F.fns.get(FM + '::reassemble')
     if ctx.anchor(sig is not None, FM + '::reassemble'):
         if sig['inputs'] and sig['inputs'][0] == FM:
@@ -163,6 +161,11 @@ def run(ctx):
                 src = None
                 if base[0] == 'call' and base[1] and base[1].endswith('HashMap::<K, V, S, A>::remove'):
                     src = 'pending.remove'
+                elif base[0] == 'call' and base[1] and 'OccupiedEntry' in base[1] and base[1].rsplit('::', 1)[1] in ('remove', 'remove_entry'):
+                    # entry API: `match pending.entry(id) { Occupied(e) => e.remove() .. }` takes the message out as well
+                    eo = unwrap(B.origin(B.blocks[base[2]]['t']['args'][0]))[0]
+                    if eo[0] == 'call' and eo[1] and eo[1].endswith('::entry') and 'HashMap' in eo[1] and 'pending' in root_fields(B, B.blocks[eo[2]]['t']['args'][0]):
+                        src = 'pending.remove'
                 elif base[0] == 'call' and base[1] == FM + '::new':
                     # fresh message: must not also have been inserted on this path
                     src = 'fresh'
